@@ -38,6 +38,7 @@ pub fn compute_alive_vars(project: &Project) -> HashMap<Tid, BTreeSet<Variable>>
                                 target: expression, ..
                             }
                             | Jmp::BranchInd(expression)
+                            | Jmp::Return(expression)
                             | Jmp::CBranch {
                                 condition: expression,
                                 ..
@@ -52,7 +53,17 @@ pub fn compute_alive_vars(project: &Project) -> HashMap<Tid, BTreeSet<Variable>>
                     }
                     computation.set_node_value(node, NodeValue::Value(alive_vars));
                 } else {
-                    computation.set_node_value(node, NodeValue::Value(BTreeSet::new()))
+                    // The target expression of a return instruction is read at the end of the block,
+                    // but the transition functions of the fixpoint computation do not see return instructions.
+                    let mut alive_vars = BTreeSet::new();
+                    for jmp in blk.term.jmps.iter() {
+                        if let Jmp::Return(expression) = &jmp.term {
+                            for input_var in expression.input_vars() {
+                                alive_vars.insert(input_var.clone());
+                            }
+                        }
+                    }
+                    computation.set_node_value(node, NodeValue::Value(alive_vars))
                 }
             }
             Node::CallReturn { .. } => {
